@@ -157,7 +157,8 @@ func chargedProps(opKind, mismatchKind string) []string {
 	case "expire_subs":
 		return []string{"C01", "C14", "C15"}
 	case "set_delay":
-		return []string{"C14"}
+		// (C15: the injector answers for live subscriptions only — a deleted one's row, pruned or not, is not its business)
+		return []string{"C14", "C15"}
 	case "delete_topic", "delete_sub":
 		// what a delete leaves behind is what the maintenance jobs have to reclaim (C15)
 		return []string{"C12", "C17", "C01", "C02", "C15"}
@@ -725,7 +726,7 @@ var (
 	profC06 = Profile{Name: "C06", Update: 1, Publish: 5, Pull: 8, Ack: 1, Nack: 4, Delay: 2, Advance: 5, Sweep: 3, Churn: 1}
 	profC13 = Profile{Name: "C13", Publish: 6, Pull: 5, Ack: 5, Nack: 1, Advance: 3, Seek: 4, Snap: 5, Maint: 1}
 	profC14 = Profile{Name: "C14", Update: 1, SetDelay: 3, Publish: 5, Pull: 6, Ack: 2, Advance: 8, Seek: 1, Snap: 2, Maint: 4, BigAdvance: true}
-	profC15 = Profile{Name: "C15", Update: 1, Publish: 5, Pull: 6, Ack: 4, Nack: 1, Advance: 5, Maint: 8, Sweep: 1, Churn: 2, Seek: 1, Snap: 1, BigAdvance: true}
+	profC15 = Profile{Name: "C15", Update: 1, SetDelay: 1, Publish: 5, Pull: 6, Ack: 4, Nack: 1, Advance: 5, Maint: 8, Sweep: 1, Churn: 2, Seek: 1, Snap: 1, BigAdvance: true}
 )
 
 // streamOffered: on the streaming path too a message keeps being offered until it is acknowledged —
@@ -902,6 +903,9 @@ func TestC04(t *testing.T) {
 		if !hasConcrete(st.Violations) {
 			backoffSweep("C04")(t, st)
 		}
+		if !hasConcrete(st.Violations) {
+			pushRefusedRedelivered("C04")(t, st)
+		}
 	}, profile: profC04, quickSeeds: 40, thoroughSeeds: 1600, nops: 100})
 }
 
@@ -983,13 +987,24 @@ func TestC06(t *testing.T) {
 		if !hasConcrete(st.Violations) {
 			deadLetterServiceLoop(t, st)
 		}
+		if !hasConcrete(st.Violations) {
+			streamInitialRequestAcks(t, st)
+		}
+		if !hasConcrete(st.Violations) {
+			pushRejectedForwarded(t, st)
+		}
 	}, profile: profC06, quickSeeds: 40, thoroughSeeds: 1600, nops: 100, drain: true})
 }
 func TestC13(t *testing.T) {
-	runCore(t, coreCfg{prop: "C13", profile: profC13, quickSeeds: 40, thoroughSeeds: 1600, nops: 100})
+	runCore(t, coreCfg{extra: seekAfterDefaultMaintenance, prop: "C13", profile: profC13, quickSeeds: 40, thoroughSeeds: 1600, nops: 100})
 }
 func TestC14(t *testing.T) {
-	runCore(t, coreCfg{extra: waitingEmptyPullRestartsExpiry, prop: "C14", profile: profC14, quickSeeds: 40, thoroughSeeds: 1600, nops: 100})
+	runCore(t, coreCfg{extra: func(t *testing.T, st *Stats) {
+		waitingEmptyPullRestartsExpiry(t, st)
+		if !hasConcrete(st.Violations) {
+			expiryServiceLoop(t, st)
+		}
+	}, prop: "C14", profile: profC14, quickSeeds: 40, thoroughSeeds: 1600, nops: 100})
 }
 
 // recreatedStream: a dead row that no job has pruned yet is invisible too — a StreamingPull on a
